@@ -61,6 +61,8 @@ def audit(ctx, R, W, outs, op, grids, expect_delta, result_terms):
         R.d['obligations'] += 4
         w = input_writes(o.st); r = global_reads(o.st)
         atom = [(k, o.st.objs[oid].name, z3.simplify(off), nb) for (k, oid, off, nb) in o.st.log if k == 'atomic']
+        private = set(oid for (k, oid, off, nb) in o.st.log if k == 'atomic' and o.st.objs[oid].kind in ('heap', 'stack'))   # use counts of grids the operation created itself
+        atom = [(k, o.st.objs[oid].name, z3.simplify(off), nb) for (k, oid, off, nb) in o.st.log if k == 'atomic' and oid not in private]
         bad_atom = [a for a in atom if not (a[1].endswith('_ctrl') and z3.is_bv_value(a[2]) and a[2].as_long() == 8 and a[3] == 4)]
         def report(sub, detail):
             sl = z3.Solver(); sl.set('timeout', 60000); sl.add(o.st.pc); m = {}
@@ -191,6 +193,18 @@ def chk_generate1(ctx):
     return R
 
 
+def chk_classscalar(ctx):
+    """forms, products, sums, operator application, linearCombination and evaluation instantiated with a class-type scalar that is
+    not trivially copyable; operands are created inside the wrapper, so any store to / load from a mutable global is state the
+    library shares between threads"""
+    R = Result('classscalar')
+    W = World(ctx['mod'], 2); x = W.var('x')
+    outs = explore(ctx, R, W, '@w_classscalar', [x], 'classscalar')
+    audit(ctx, R, W, outs, 'classscalar', [], 0, lambda o: [])
+    if outs: control(R, outs[0].st, z3.BoolVal(False), 'classscalar/path-feasible')
+    return R
+
+
 def chk_module_scan(ctx):
     """every global variable the lowered module defines is a constant; mutable statics are listed (and any access to one is
     reported by the per-operation audits)"""
@@ -211,4 +225,4 @@ LARGE = [
     mkcheck('linform', [2], fixed_n=11),
     mkcheck('sequal', [2, 2], two_grids=True, fixed_n=10),
 ]
-CHECKS = QUICK + THOROUGH + [chk_generate1, chk_module_scan] + LARGE
+CHECKS = QUICK + THOROUGH + [chk_generate1, chk_module_scan] + LARGE + [chk_classscalar]
